@@ -151,7 +151,7 @@ pub fn check_sender(tr: &Trace) -> (Vec<MViol>, Summary) {
                         if burst.is_empty() {
                             hi_before_burst = hi;
                         }
-                        let k = abs_block(block, hi);
+                        let k = abs_after(block, acked);
                         any_data = true;
                         if k > kfinal {
                             push(&mut out, mv("S2-beyond-final", &["C01", "C07"], format!("DATA block {k} (wire {block}, {} bytes) emitted but the final block is {kfinal}", data.len()), &[]));
@@ -211,7 +211,7 @@ pub fn check_sender(tr: &Trace) -> (Vec<MViol>, Summary) {
                                         tolerated_abort_cause = true;
                                     }
                                 } else {
-                                    let ka = abs_block(k, acked);
+                                    let ka = abs_ack(k, acked, hi);
                                     if ka > acked && ka <= hi {
                                         acked = ka;
                                         prev_raised_to = Some(ka);
